@@ -536,6 +536,15 @@ impl<'a> Engine<'a> {
             }
             (Ok(()), Err(rj)) => {
                 run.outcome(&format!("batch:accepted-model-rejects:{}", rj.reason));
+                // conservation and coin counts are evaluated on the real state whatever the model says
+                {
+                    let child = n.child(Real::Open(next.clone()), n.model.clone(), a);
+                    let after = observe(&child);
+                    if self.check_conservation {
+                        self.check_batch_conservation(n, &before, &after, txs, &child, a, &ctx);
+                    }
+                    check_counts(run, &after, n.model.rules().tip_906, n, Some(a), "after-batch");
+                }
                 for p in reason_props(rj.reason) {
                     run.violation(
                         p,
